@@ -1,3 +1,71 @@
-import Mkdb.Spec.Query
+import Mkdb.Proofs.Aggregate
+import Mkdb.Proofs.NoPanicExec
+/-!
+# C07 — COUNT, AVG and GROUP BY compute true aggregates
+
+Property theorems only (proofs in `Mkdb/Proofs/Aggregate.lean`, `NoPanicExec.lean`).
+Full statement for GROUP BY and COUNT; AVG is a *known finding*: the code keeps a
+cumulative average rounded after every row, so "AVG = round(sum/count), independent of row
+order" is false of the code and of the model — `C07_avg_counterexample` is its witness and
+`C07_avg_partial` what does hold.
+-/
 namespace Mkdb.Exec
+open Mkdb.Sql Mkdb.Exec.AggP Mkdb.Exec.NoPanicP
+
+/-- **C07.one_group_per_key**: grouping produces exactly one group per distinct tuple of
+grouping values, in first-occurrence order. -/
+theorem C07_one_group_per_key (key : Row → List Val) (rows : List Row) :
+    ((groupsOf key rows).map (·.key)).Nodup ∧ (groupsOf key rows).map (·.key) = (rows.map key).eraseDups :=
+  ⟨groups_keys_nodup key rows, groups_keys_first_occurrence key rows⟩
+
+/-- **C07.same_group_iff_equal_key**: two rows are in the same group only if all their
+grouping values are equal, and every row is in the group of its key. -/
+theorem C07_group_membership (key : Row → List Val) (rows : List Row) :
+    (∀ g ∈ groupsOf key rows, ∀ r ∈ g.rows, key r = g.key) ∧
+    (∀ r ∈ rows, ∃ g ∈ groupsOf key rows, g.key = key r ∧ r ∈ g.rows) :=
+  groups_rows_key key rows
+
+/-- **C07.partition**: the groups partition the input: each group is exactly the rows with
+its key (in order), and together they are a permutation of the input. -/
+theorem C07_partition (key : Row → List Val) (rows : List Row) :
+    ((groupsOf key rows).flatMap (·.rows)).Perm rows ∧
+    (∀ g ∈ groupsOf key rows, g.rows = rows.filter (fun r => key r == g.key)) :=
+  groups_partition key rows
+
+/-- **C07.count_star**: COUNT(*) of a group is its number of rows. -/
+theorem C07_count_star (colIdx : Nat) (g : Group) (h : ∀ r ∈ g.rows, r[colIdx]? = some (.int 1)) :
+    aggCell (.count none) colIdx g = .ok (.int g.rows.length) :=
+  count_star_correct colIdx g h
+
+/-- **C07.count_col**: COUNT(col) of a group is its number of rows with a non-NULL value. -/
+theorem C07_count_col (c : Option ColRef) (colIdx : Nat) (g : Group) (nonNull : Row → Bool)
+    (h : ∀ r ∈ g.rows, r[colIdx]? = some (.int (if nonNull r then 1 else 0))) :
+    aggCell (.count c) colIdx g = .ok (.int (g.rows.filter nonNull).length) :=
+  count_col_correct c colIdx g nonNull h
+
+/-- **C07.order_independent (groups, counts)**: permuting the input rows changes neither the
+set of groups nor the rows (hence the counts) of any group. -/
+theorem C07_order_independent (key : Row → List Val) {rows rows' : List Row} (hp : rows'.Perm rows) (k : List Val) :
+    ((∃ g' ∈ groupsOf key rows', g'.key = k) ↔ (∃ g ∈ groupsOf key rows, g.key = k)) ∧
+    (∀ g' ∈ groupsOf key rows', ∀ g ∈ groupsOf key rows, g'.key = k → g.key = k →
+      g'.rows.Perm g.rows ∧ g'.rows.length = g.rows.length) :=
+  count_perm_invariant key hp k
+
+/-- **C07.rows_out**: with aggregates the result has one row per distinct grouping tuple. -/
+theorem C07_one_row_per_key (sl : List DerivedCol) (groupBy : List ColRef) (rows out : List Row)
+    (hagg : hasAggr sl = true) (hne : (groupBy.isEmpty && rows.isEmpty) = false)
+    (h : aggregateRows sl groupBy rows = .ok out) :
+    ∃ idxs, groupIdxs sl groupBy = .ok idxs ∧
+      out.length = ((rows.map fun r => idxs.map fun i => (r[i]?).getD .null).eraseDups).length :=
+  aggregateRows_one_row_per_key sl groupBy rows out hagg hne h
+
+/-- **C07.avg_partial**: the cumulative average is exact when all values are equal or there is one value. -/
+theorem C07_avg_partial (x : Int) (n : Nat) : runningAvg [x] = x ∧ runningAvg (List.replicate (n + 1) x) = x :=
+  ⟨runningAvg_single x, runningAvg_const x n⟩
+
+/-- **C07.avg_counterexample** (known finding): the average depends on row order and differs
+from round(sum/count): avg of 2,1,1 is 2, of 1,1,2 is 1, while round(4/3) = 1. -/
+theorem C07_avg_counterexample : runningAvg [2, 1, 1] = 2 ∧ runningAvg [1, 1, 2] = 1 ∧ roundDiv 4 3 = 1 :=
+  runningAvg_counterexample
+
 end Mkdb.Exec
